@@ -333,6 +333,7 @@ inline XInst instantiate(const xdb::Form& f, int mode, Choices& c, bool allow_op
         static const int b16[] = {3, 3, 5, 5, -1, -1, 5, 3};
         static const int i16[] = {6, 7, 6, 7, 6, 7, -1, -1};
         int s = c.pick(9);
+        if (s == 8 && str_addr_bits) s = 7;      // string-operand companions need a base register of the same address size
         if (s == 8) { m.abs = true; m.addr_bits = 32; m.disp = pick_disp(c, 1) & 0xffff; }
         else {
           if (b16[s] >= 0) { m.base.rc = RC::Gp16; m.base.id = b16[s]; }
